@@ -900,4 +900,43 @@ theorem resolveSpec_path (st : St) (m : Id) (mp : List Name) (tm : Id)
       exact ⟨x :: p, memberModule_edge st m n x hx, hp⟩
     · cases h
 
+/-! ### host objects shared between configurations: `overrideModO false` is the code as it is -/
+
+theorem overrideModO_false (st : St) (m : Id) (name : Name) (v : Option Id) :
+    overrideModO false st m name v = overrideMod st m name v := by
+  unfold overrideModO
+  cases v <;> simp
+
+theorem editMemberO_false (st : St) (mname : Name) (attr : List Name) (v : Option Id) :
+    editMemberO false st mname attr v = editMember resolveImpl st mname attr v := by
+  unfold editMemberO editMember
+  simp only [overrideModO_false]
+
+theorem overridePartsO_false (st : St) (parts : List Name) (v : Id) :
+    overridePartsO false st parts v = overrideParts st parts v := by
+  unfold overridePartsO overrideParts overrideWith
+  split <;> simp only [editMemberO_false]
+
+theorem initCfgO_false (st : St) (ds : List (List Name)) (os : List (List Name × Id)) :
+    initCfgO false st ds os = initCfg st ds os := by
+  unfold initCfgO initCfg
+  simp only [overridePartsO_false]
+
+theorem buildO_false (w : World) (b : Build) : buildO false w b = build false w b := by
+  unfold buildO build initFrom
+  simp only [initCfgO_false]
+
+theorem bget_append (a b : List (Id × Id)) (x : Id) :
+    bget (a ++ b) x = match bget a x with
+      | some m => some m
+      | none => bget b x := by
+  induction a with
+  | nil => rfl
+  | cons e a ih =>
+    obtain ⟨k, v⟩ := e
+    simp only [List.cons_append, bget]
+    split
+    · rfl
+    · exact ih
+
 end Risor.C11
